@@ -128,13 +128,14 @@ def check_def(fn, name):
                                     "∃v.f is %s" % (show(alt), f1, f0, got, want))
             elif name == "compose":
                 lbl = ("param", 3)
-                for f1, f0, g in itertools.product([False, True], repeat=3):
-                    got = ev(alt, {2: (f1, f0), 4: (g, g)}, lbl)
-                    want = f1 if g else f0
+                # documented definition: ∃v.(g ⇔ v) ∧ f, with g allowed to mention v itself
+                for f1, f0, g1, g0 in itertools.product([False, True], repeat=4):
+                    got = ev(alt, {2: (f1, f0), 4: (g1, g0)}, lbl)
+                    want = (g1 and f1) or ((not g0) and f0)
                     if got != (want, want):
                         return inst("DT", key, VIOLATION, fn, None,
-                                    "`compose` is defined as %s: for (f|v=1, f|v=0, g) = (%s, %s, %s) it gives %s, "
-                                    "f[g/v] is %s" % (show(alt), f1, f0, g, got, want))
+                                    "`compose` is defined as %s: for cofactors (f|v=1, f|v=0, g|v=1, g|v=0) = (%s, %s, %s, %s) "
+                                    "it gives %s, ∃v.(g⇔v)∧f is %s" % (show(alt), f1, f0, g1, g0, got, want))
             else:
                 raise Undecided("no truth table for %s" % name)
             decided += 1
@@ -168,4 +169,16 @@ def run(prog):
     for name in ("or", "compose"):
         fn = prog.find1(name=name, in_trait=BB, unit="rsdd-lib")
         out.append(check_def(fn, name))
+    # overrides of the provided methods by an implementor must satisfy the same definition
+    done = {r["fn"] for r in out}
+    for name in ("or", "compose"):
+        for fn in prog.find(name=name, impl_trait=BB, unit="rsdd-lib"):
+            if fn.npath in done or (name == "or" and not te_is_derived(fn)):
+                continue
+            out.append(check_def(fn, name))
     return out
+
+
+def te_is_derived(fn):
+    """an `or` that is itself the primitive apply (loops, table lookups) is not a derived operator"""
+    return len(fn.blocks) <= 12
